@@ -151,7 +151,7 @@ ImplRephScan(buf, idx, cons, vow, has, chan, step) ==
          ELSE IF c = HASANTA THEN ImplRephScan(buf, idx + 1, cons, vow, TRUE, chan, step + 1)
          ELSE IF c \in ImplVowels THEN
               IF vow THEN step
-              ELSE IF idx = 0 \/ chan THEN ImplRephScan(buf, idx + 1, cons, TRUE, has, chan, step + 1)
+              ELSE IF idx = 0 \/ (chan /\ idx = 1) THEN ImplRephScan(buf, idx + 1, cons, TRUE, has, chan, step + 1)
               ELSE step
          ELSE IF c = CHANDRA THEN
               IF idx = 0 THEN ImplRephScan(buf, idx + 1, cons, vow, has, TRUE, step + 1)
